@@ -1052,6 +1052,7 @@ impl Model {
     /// Ok(Some) resolved / Ok(None) unspecified / Err must be refused
     fn resolve_sel(&mut self, sel: &Sel, top: bool, fx: &mut Effects) -> Result<Option<MSel>, ()> {
         match sel {
+            Sel::Missing => Err(()),
             Sel::Text { r, b, e } => {
                 let t = self.res_target(r);
                 let uid = t.uid.ok_or(())?;
@@ -1160,7 +1161,7 @@ impl Model {
     }
 
     /// Ok(Some((set uid, data idx))) / Ok(None) unspecified / Err refused
-    fn apply_dataspec(&mut self, spec: &DataSpec, fx: &mut Effects) -> Result<Option<(Uid, usize)>, ()> {
+    pub fn apply_dataspec(&mut self, spec: &DataSpec, fx: &mut Effects) -> Result<Option<(Uid, usize)>, ()> {
         match spec {
             DataSpec::New {
                 set,
